@@ -471,93 +471,139 @@ def _conj_has(test, expr_src):
 
 
 _SRG = {}
+# scanner functions that, when they return true, have consumed exactly one float literal (reviewed once, by function)
+NUMBER_CONSUMERS = {'consume_number': 'accepts -?digits[.digits] and restores the position on a lone dash / lone dot'}
 
 
-def _scan_run_guard(p, f, call, arg):
-    """int(X.current()) is the digit run exactly when, on every path that evaluates it, the events that touch X are, in this
-    order:  X.start = X.pos ;  X.eat_while(is_number) returning true ;  X.current().   Decided on the symbolic path
-    summaries of the function (sympath), so it does not depend on how the tests are spelled."""
-    if not (isinstance(arg, ast.Call) and isinstance(arg.func, ast.Attribute) and arg.func.attr == 'current'):
-        return None
+def _validate_run(q, i, x):
+    """events of path q before index i that touch scanner x must establish that x.current() is a digit run / a number:
+         A:  x.start = x.pos ; x.eat_while(is_number) true ; [current]
+         B:  s = x.pos (snapshot) ; consume_number(x) true ; x.start = s ; [current]
+       -> True or the reason it is not established"""
     from .. import sympath
-    x = src_of(arg.func.value)
-    key = (id(p), f.qualname, x)
-    if key not in _SRG:
-        verdict = []
-        try:
-            paths = sympath.feasible(sympath.summaries(p, f, inline=False))
-        except sympath.Unsupported as e:
-            paths = None
-            verdict.append(('undecided', str(e)))
-        n_sites = 0
-        for q in paths or []:
-            ev = q.events
-            for i, (sym, node, conds) in enumerate(ev):
-                if not (isinstance(node, ast.Call) and isinstance(node.func, ast.Attribute) and node.func.attr == 'current' and src_of(node.func.value) == x):
+    ev = q.events
+    conds = ev[i][2]
+    j = i - 1
+    stage = 'first'
+    snap_at = None
+    while j >= 0:
+        s2, n2, c2 = ev[j]
+        j -= 1
+        if s2.startswith(('_iter', '_stable', '_unstable', '@')):
+            continue
+        if not sympath.touches(n2, x):
+            continue
+        if stage == 'first':
+            if isinstance(n2, ast.Call) and src_of(n2) == '%s.eat_while(is_number)' % x:
+                if (s2, True) in conds:
+                    stage = 'startA'
                     continue
-                used = sympath.mentions(q, lambda n: isinstance(n, ast.Call) and isinstance(n.func, ast.Name) and n.func.id in ('int', 'float')
-                                        and n.args and isinstance(n.args[0], ast.Name) and n.args[0].id == sym)
-                if not used:
+                return 'the digit run may be empty here (the result of %s.eat_while(is_number) is not required to be true on this path)' % x
+            if isinstance(n2, ast.Call) and isinstance(n2.func, ast.Name) and n2.func.id in NUMBER_CONSUMERS and len(n2.args) == 1 and src_of(n2.args[0]) == x:
+                if (s2, True) in conds:
+                    stage = 'startA'
                     continue
-                n_sites += 1
-                j = i - 1
-                stage = 'run'
-                why = None
-                while j >= 0:
-                    s2, n2, c2 = ev[j]
-                    j -= 1
-                    if not sympath.touches(n2, x):
-                        continue
-                    if stage == 'run':
-                        if isinstance(n2, ast.Call) and src_of(n2) == '%s.eat_while(is_number)' % x and (s2, True) in conds:
-                            stage = 'start'
-                            continue
-                        if isinstance(n2, ast.Call) and src_of(n2) == '%s.eat_while(is_number)' % x:
-                            why = 'the digit run may be empty here (the result of %s.eat_while(is_number) is not required to be true on this path)' % x
-                        else:
-                            why = 'not dominated by a successful %s.eat_while(is_number) (last scanner event before it: `%s`)' % (x, src_of(n2))
-                        break
-                    if stage == 'start':
-                        if isinstance(n2, ast.Assign) and src_of(n2.targets[0]) == '%s.start' % x and src_of(n2.value) == '%s.pos' % x:
-                            stage = 'done'
-                        else:
-                            why = 'statement `%s` touches the scanner between `%s.start = %s.pos` and the digit run' % (src_of(n2), x, x)
-                        break
-                if stage == 'done':
-                    verdict.append(('ok', None))
-                else:
-                    verdict.append(('bad', why or ('`%s.start = %s.pos` does not precede the digit run' % (x, x) if stage == 'start'
-                                                   else 'not dominated by a successful %s.eat_while(is_number)' % x)))
-        if paths is not None and n_sites == 0:
-            verdict.append(('undecided', 'no path evaluates the conversion'))
-        _SRG[key] = verdict
-    v = _SRG[key]
-    bad = [w for k, w in v if k == 'bad']
-    if bad:
-        return bad[0]
-    und = [w for k, w in v if k == 'undecided']
-    if und:
-        return ('undecided', und[0])
-    return True
+                return 'the result of %s(%s) is not required to be true on this path' % (n2.func.id, x)
+            if isinstance(n2, ast.Assign) and src_of(n2.targets[0]) == '%s.start' % x and isinstance(n2.value, ast.Name) and n2.value.id in q.snaps \
+                    and src_of(q.snaps[n2.value.id][1]) == '%s.pos' % x:
+                snap_at = q.snaps[n2.value.id][2]
+                stage = 'consumeB'
+                continue
+            return 'not dominated by a successful %s.eat_while(is_number) (last scanner event before it: `%s`)' % (x, q.rsrc(n2))
+        if stage == 'startA':
+            if isinstance(n2, ast.Assign) and src_of(n2.targets[0]) == '%s.start' % x and src_of(n2.value) == '%s.pos' % x:
+                return True
+            return 'statement `%s` touches the scanner between `%s.start = %s.pos` and the digit run' % (q.rsrc(n2), x, x)
+        if stage == 'consumeB':
+            fn = n2.func if isinstance(n2, ast.Call) else None
+            nm = fn.id if isinstance(fn, ast.Name) else None
+            if nm in NUMBER_CONSUMERS and len(n2.args) == 1 and src_of(n2.args[0]) == x:
+                if (s2, True) not in conds:
+                    return 'the result of %s(%s) is not required to be true on this path' % (nm, x)
+                # the start snapshot was taken right before the consumer: nothing touching x in between
+                k = j + 1
+                between = [e for e in ev[snap_at:k] if not e[0].startswith(('_iter', '@')) and sympath.touches(e[1], x)]
+                if snap_at <= k and not between:
+                    return True
+                return 'the saved start position is not the position right before %s(%s)' % (nm, x)
+            return 'statement `%s` touches the scanner between %s and the read of the run' % (q.rsrc(n2), '/'.join(NUMBER_CONSUMERS))
+    return '`%s.start = %s.pos` does not precede the digit run' % (x, x) if stage == 'startA' else 'not dominated by a successful digit scan'
+
+
+def _param_converters(p):
+    """{(Func, parameter index)}: functions that hand a parameter straight to int()/float()"""
+    out = {}
+    for g in p.funcs.values():
+        for n in g.body_nodes():
+            if isinstance(n, ast.Call) and isinstance(n.func, ast.Name) and n.func.id in ('int', 'float') and len(n.args) == 1 and isinstance(n.args[0], ast.Name) \
+                    and n.args[0].id in g.params and not p.local_assignments(g, n.args[0].id):
+                e = p.resolve_name(g, n.func.id)
+                if e is not None and e.kind == 'builtin':
+                    out[(g.qualname, g.params.index(n.args[0].id))] = (g, n)
+    return out
+
+
+def _run_sites(p, f, converters):
+    """per function: verdicts for conversions of x.current() (direct, or through a converter function)
+       -> {'direct': [verdict...], 'via': {(callee qualname, index): [verdict...]}}  verdict = True | reason str | ('undecided', why)"""
+    from .. import sympath
+    key = (id(p), f.qualname)
+    if key in _SRG:
+        return _SRG[key]
+    out = {'direct': {}, 'via': {}}
+    has_current = any(isinstance(n, ast.Call) and isinstance(n.func, ast.Attribute) and n.func.attr == 'current' for n in f.body_nodes())
+    if not has_current:
+        _SRG[key] = out
+        return out
+    try:
+        paths = sympath.feasible(sympath.summaries(p, f, inline=False))
+        # sites inside loops: one generic iteration of every loop body (the loop-carried locals are unconstrained there)
+        for lp in [n for n in f.body_nodes() if isinstance(n, (ast.For, ast.While))]:
+            paths += sympath.feasible(sympath.block_summaries(p, f, ([ast.Expr(value=lp.test)] if isinstance(lp, ast.While) else []) + list(lp.body)))
+    except sympath.Unsupported as e:
+        out['error'] = str(e)
+        _SRG[key] = out
+        return out
+    for q in paths:
+        ev = q.events
+        cur = {sym: (i, src_of(n.func.value)) for i, (sym, n, _) in enumerate(ev)
+               if isinstance(n, ast.Call) and isinstance(n.func, ast.Attribute) and n.func.attr == 'current' and not n.args}
+        if not cur:
+            continue
+        for c in sympath.mentions(q, lambda n: isinstance(n, ast.Call)):
+            if isinstance(c.func, ast.Name) and c.func.id in ('int', 'float') and c.args and isinstance(c.args[0], ast.Name) and c.args[0].id in cur:
+                i, x = cur[c.args[0].id]
+                out['direct'].setdefault((c.func.id, x), []).append(_validate_run(q, i, x))
+            else:
+                tgt = p.resolve_call(f, c) if isinstance(c.func, (ast.Name, ast.Attribute)) else None
+                if isinstance(tgt, list) and len(tgt) == 1:
+                    for ai, a in enumerate(c.args):
+                        if isinstance(a, ast.Name) and a.id in cur and (tgt[0].qualname, ai) in converters:
+                            i, x = cur[a.id]
+                            out['via'].setdefault((tgt[0].qualname, ai), []).append(_validate_run(q, i, x))
+    _SRG[key] = out
+    return out
 
 
 REVIEWED_NUMCONV = {
-    # (function, normalised call) : (required enclosing guard text, reason)
-    ('css_abbreviation.tokenizer.number_value', 'float(raw_value)'):
-        ('consume_number(scanner)', 'consume_number accepts -?digits[.digits] and restores on a lone dash / lone dot, so the run is a float literal'),
-    ('css_abbreviation.tokenizer.parse_color', 'float(alpha)'):
-        ("alpha is not None and alpha != ''", "alpha comes from color_alpha(): '.' followed by a digit run, or the constants '1'/'0'"),
-    ('css_abbreviation.tokenizer.parse_color', 'int(r, 16)'): (None, 'r,g,b are slices of an is_hex run or the constant "0"'),
-    ('css_abbreviation.tokenizer.parse_color', 'int(g, 16)'): (None, 'see r'),
-    ('css_abbreviation.tokenizer.parse_color', 'int(b, 16)'): (None, 'see r'),
-    ('math_expression.parser.number', 'float(value)'):
-        (None, 'only called with scanner.current() after consume_number() succeeded (call site checked)'),
+    # (function, conversion, number of arguments) : (guard on the converted parameter or None, reason)      -- keyed by role, not by the names of locals
+    ('css_abbreviation.tokenizer.parse_color', 'float', 1):
+        (('is not None', "!= ''"), "alpha comes from color_alpha(): '.' followed by a digit run, or the constants '1'/'0'"),
+    ('css_abbreviation.tokenizer.parse_color', 'int', 2): (None, 'r,g,b are slices of an is_hex run or the constant "0" (base 16)'),
 }
 
 
 @rule('EXC-NUMCONV', 'N', 'arguments of int()/float() are proven to be non-empty numeric text')
 def exc_numconv(p, res):
+    from .. import shape
+    converters = _param_converters(p)
+    via_verdicts = {}
     for f in p.funcs.values():
+        r = _run_sites(p, f, converters)
+        for k, vs in r['via'].items():
+            via_verdicts.setdefault(k, []).extend((f, v) for v in vs)
+    for f in p.funcs.values():
+        pm = None
         for n in f.body_nodes():
             if not (isinstance(n, ast.Call) and isinstance(n.func, ast.Name) and n.func.id in ('int', 'float') and n.args):
                 continue
@@ -565,17 +611,32 @@ def exc_numconv(p, res):
             if e is None or e.kind != 'builtin':
                 continue
             arg = n.args[0]
-            # (a) digit run read through scanner.current()
-            r = _scan_run_guard(p, f, n, arg)
-            if r is True:
-                res.ok('%s: %s after eat_while(is_number)' % (f.short, src_of(n)))
+            defs = shape.defs_of(f.node, params=f.params)
+            xarg = shape.expand(arg, defs)
+            # (a) a digit run / number read through scanner.current()
+            if isinstance(xarg, ast.Call) and isinstance(xarg.func, ast.Attribute) and xarg.func.attr == 'current' and not xarg.args:
+                r = _run_sites(p, f, converters)
+                vs = r['direct'].get((n.func.id, src_of(xarg.func.value)))
+                if 'error' in r or not vs:
+                    res.undecided('%s: %s' % (f.short, src_of(n)), r.get('error', 'no path evaluates the conversion'))
+                elif all(v is True for v in vs):
+                    res.ok('%s: %s after a successful digit scan starting at scanner.start' % (f.short, src_of(n)))
+                else:
+                    why = next(v for v in vs if v is not True)
+                    res.bad(F('EXC-NUMCONV', f, n, src_of(n), why + ': ValueError possible / wrong text converted'))
                 continue
-            if isinstance(r, str):
-                res.bad(F('EXC-NUMCONV', f, n, src_of(n), r + ': ValueError possible / wrong text converted'))
-                continue
-            if isinstance(r, tuple):
-                res.undecided('%s: %s' % (f.short, src_of(n)), r[1])
-                continue
+            # (a') a parameter converted directly: decided at the call sites
+            if isinstance(arg, ast.Name) and (f.qualname, f.params.index(arg.id) if arg.id in f.params else -1) in converters:
+                vs = via_verdicts.get((f.qualname, f.params.index(arg.id)), [])
+                ncallers = len(callgraph.get(p).callers_of(f))
+                if vs and all(v is True for _, v in vs) and ncallers:
+                    res.ok('%s: %s: every call site passes scanner.current() after a successful number scan' % (f.short, src_of(n)))
+                    continue
+                bad = [(g, v) for g, v in vs if v is not True]
+                if bad:
+                    res.bad(F('EXC-NUMCONV', bad[0][0], bad[0][0].node, '%s(.. %s.current() ..)' % (f.name, 'scanner'), bad[0][1] + ': ValueError possible / wrong text converted'))
+                    continue
+                # fall through to the reviewed table
             # (b) regex group
             g = arg
             sliced = 0
@@ -594,7 +655,7 @@ def exc_numconv(p, res):
                 gno = p.try_const(f, g.args[0])
                 pats = _regex_for(p, f, g.func.value.id)
                 if not pats or not isinstance(gno, int):
-                    res.bad(F('EXC-NUMCONV', f, n, src_of(n), 'regex of the match object could not be resolved'))
+                    res.undecided('%s: %s' % (f.short, src_of(n)), 'regex of the match object could not be resolved')
                     continue
                 for pat, flags in pats:
                     lo, hi, cs, optional, sub = group_info(pat, flags, gno)
@@ -607,7 +668,7 @@ def exc_numconv(p, res):
                         rest = rest[1:]
                         k -= 1
                     if k:
-                        res.bad(F('EXC-NUMCONV', f, n, src_of(n), 'slice of regex group cannot be related to its pattern'))
+                        res.undecided('%s: %s' % (f.short, src_of(n)), 'slice of regex group cannot be related to its pattern')
                         continue
                     sp = sre_parse.SubPattern(sub.state, rest)
                     lo2, hi2 = sp.getwidth()
@@ -617,8 +678,6 @@ def exc_numconv(p, res):
                         problems.append('group %d may be absent (None) and is not guarded' % gno)
                     if lo2 == 0 and not (sliced == 0 and guarded) and not empty_ok:
                         problems.append('text may be empty after [%d:] (group %d matches %r)' % (sliced, gno, pat))
-                    if lo2 == 0 and sliced == 0 and guarded:
-                        pass
                     if not digits:
                         problems.append('group may contain non-digits')
                     if problems:
@@ -626,23 +685,26 @@ def exc_numconv(p, res):
                     else:
                         res.ok('%s: %s on /%s/ group %d' % (f.short, src_of(n), pat, gno))
                 continue
-            # (c) reviewed table with structural anchor
-            key = (f.short, src_of(n))
+            # (c) reviewed table, keyed by function and kind of conversion; the guard is a set of facts about the converted parameter
+            key = (f.short, n.func.id, len(n.args))
             if key in REVIEWED_NUMCONV:
                 guard, reason = REVIEWED_NUMCONV[key]
-                if guard is not None and not _enclosing_test_contains(p, f, n, guard):
-                    res.bad(F('EXC-NUMCONV', f, n, src_of(n), 'reviewed conversion is no longer guarded by `%s`' % guard))
+                if guard is not None:
+                    pm = pm or shape.parent_map(f.node)
+                    facts = {(fs, pol) for fs, pol in shape.implied(n, pm)}
+                    a = src_of(arg)
+                    need = [('%s %s' % (a, gd), True) for gd in guard]
+                    alt = {("%s is not None" % a): ("%s is None" % a, False), ("%s != ''" % a): ("%s == ''" % a, False)}
+                    if all(nd in facts or alt.get(nd[0]) in facts for nd in need) and isinstance(arg, ast.Name) and arg.id in f.params:
+                        res.ok('%s: %s (reviewed: %s)' % (f.short, src_of(n), reason))
+                    elif isinstance(arg, ast.Name) and arg.id in f.params and not any(a in fs for fs, _ in facts):
+                        res.bad(F('EXC-NUMCONV', f, n, src_of(n), 'reviewed conversion is no longer guarded by `%s`' % ' and '.join('%s %s' % (a, gd) for gd in guard)))
+                    else:
+                        res.undecided('%s: %s' % (f.short, src_of(n)), 'guard `%s` not recognised' % ' and '.join('%s %s' % (a, gd) for gd in guard))
                 else:
                     res.ok('%s: %s (reviewed: %s)' % (f.short, src_of(n), reason))
                 continue
-            res.bad(F('EXC-NUMCONV', f, n, src_of(n), 'argument is not proven to be numeric text (unlisted conversion site)'))
-    # the reviewed math site: number() is called only with current() after consume_number
-    nf = p.func('math_expression.parser.number')
-    for g, call in callgraph.get(p).callers_of(nf):
-        if src_of(call) == 'number(scanner.current())' and _enclosing_test_contains(p, g, call, 'consume_number(scanner)'):
-            res.ok('%s: %s under consume_number' % (g.short, src_of(call)))
-        else:
-            res.bad(F('EXC-NUMCONV', g, call, src_of(call), 'number() must be fed scanner.current() after consume_number(scanner)'))
+            res.undecided('%s: %s' % (f.short, src_of(n)), 'argument is not shown to be numeric text (no digit scan, regex group or reviewed source recognised)')
     res.require_floor(12)
 
 
